@@ -47,11 +47,17 @@ let fast_write f w h (inp : n array) : string =
               end) (img_reads comp_sel f w h);
   Buffer.add_char b '\n';
   Buffer.contents b
-let opt s = if s = "-" then None else Some (str_of_string s)
+(* "@x<hex>" = the text with those bytes *)
+let detok t =
+  if String.length t >= 2 && t.[0] = '@' && t.[1] = 'x' then
+    String.init ((String.length t - 2) / 2) (fun i -> Char.chr (int_of_string ("0x" ^ String.sub t (2 + 2 * i) 2)))
+  else t
+let text t = str_of_string (detok t)
+let opt s = if s = "-" then None else Some (text s)
 let parse_ev tok = match String.split_on_char ':' tok with
-  | ["B"; name; cat; ts] -> { e_kind = KBegin; e_name = str_of_string name; e_cat = opt cat; e_value = N0; e_time = n ts; e_util = [] }
-  | ["M"; name; cat; ts] -> { e_kind = KMarker; e_name = str_of_string name; e_cat = opt cat; e_value = N0; e_time = n ts; e_util = [] }
-  | ["C"; name; v; ts] -> { e_kind = KCounter; e_name = str_of_string name; e_cat = None; e_value = n v; e_time = n ts; e_util = [] }
+  | ["B"; name; cat; ts] -> { e_kind = KBegin; e_name = text name; e_cat = opt cat; e_value = N0; e_time = n ts; e_util = [] }
+  | ["M"; name; cat; ts] -> { e_kind = KMarker; e_name = text name; e_cat = opt cat; e_value = N0; e_time = n ts; e_util = [] }
+  | ["C"; name; v; ts] -> { e_kind = KCounter; e_name = text name; e_cat = None; e_value = n v; e_time = n ts; e_util = [] }
   | ["E"; ts] -> { e_kind = KEnd; e_name = []; e_cat = None; e_value = N0; e_time = n ts; e_util = str_of_string "0" }
   | _ -> failwith ("bad event " ^ tok)
 let rec split_threads acc cur = function
@@ -112,7 +118,7 @@ let () =
              { e with e_name = nm; e_cat = cat } in
          let ops = List.concat_map (fun (nmid, evs) ->
              let (nm, id) = split_hash nmid in
-             (RAttach id :: (if nm = "TID" then [] else [RName (id, str_of_string nm)]))
+             (RAttach id :: (if nm = "TID" then [] else [RName (id, (if nm = "@e" then [] else text nm))]))
              @ List.map (fun e -> RRec (id, through id (parse_ev e))) evs) (split_threads [] None rest) in
          let reg = reg_run ops in
          let ids = if order = "-" then [] else List.map n (String.split_on_char ',' order) in
